@@ -6,9 +6,12 @@ package classifier
 // Metamorphic oracle: Match(P+X+S) == Match(X) shifted by |P| tokens and lines(P) lines.
 
 import (
+	"bytes"
 	"fmt"
+	"regexp"
 	"strings"
 	"testing"
+	"unicode/utf8"
 
 	"pgregory.net/rapid"
 	"verif/lib"
@@ -35,13 +38,37 @@ type c07Case struct {
 
 var c07Markers = []string{"1.", "2)", "2.0.", "10.2)", "iv.", "a.", "3.", "2.1.", "12)", "b."}
 
-func c07Numbered(block []byte) []byte {
+var c07MarkerLike = regexp.MustCompile(`^\(?([0-9]+(\.[0-9]+)*|[a-r]|[ivx]+)[.):]$`)
+
+// c07MarkersIn collects words of x that look like list markers but do not stand at a line start.
+func c07MarkersIn(x []byte) []string {
+	seen := map[string]bool{}
+	var out []string
+	for _, l := range strings.Split(string(x), "\n") {
+		f := strings.Fields(l)
+		for i, w := range f {
+			if i == 0 || seen[w] || !c07MarkerLike.MatchString(strings.ToLower(w)) {
+				continue
+			}
+			// a marker must start with a character the tokenizer starts a word at, and be dropped at a line start
+			if w[0] == '(' {
+				continue
+			}
+			seen[w] = true
+			out = append(out, w)
+		}
+	}
+	return out
+}
+
+func c07Numbered(block []byte, fromX []string) []byte {
 	if len(block) == 0 {
 		return block
 	}
+	markers := append(append([]string{}, fromX...), c07Markers...)
 	ls := strings.Split(strings.TrimSuffix(string(block), "\n"), "\n")
 	for i := range ls {
-		ls[i] = c07Markers[i%len(c07Markers)] + " " + ls[i]
+		ls[i] = markers[i%len(markers)] + " " + ls[i]
 	}
 	return []byte(strings.Join(ls, "\n") + "\n")
 }
@@ -141,7 +168,9 @@ func c07Check(ci interface{}) lib.Outcome {
 	p := []byte(oovBlock(cl, 300000, c.PWords, c.PLines))
 	s := []byte(oovBlock(cl, 400000, c.SWords, c.SLines))
 	if c.PStyle == 1 {
-		p, s = c07Numbered(p), c07Numbered(s)
+		// prefer markers that also occur inside X (not at a line start there): "Section 2) in", "(see 10.2)" ...
+		mk := c07MarkersIn(x)
+		p, s = c07Numbered(p, mk), c07Numbered(s, mk)
 	}
 	if len(x) > 0 && x[len(x)-1] != '\n' {
 		x = append(x, '\n')
@@ -156,20 +185,39 @@ func c07Check(ci interface{}) lib.Outcome {
 	}
 	full := append(append(append([]byte{}, p...), x...), s...)
 	tf := ids(cl, full)
-	// premise: ids(P+X+S) == 0^|P| ++ ids(X) ++ 0^|S| with lines shifted by lines(P)
+	// The blocks are unrelated text by construction (verified on their own: every word unknown). Whether X is read
+	// the same way behind / in front of them is part of the property, so a difference at token level is a violation,
+	// not a failed premise. The only legitimate interaction is a hyphen at the very end of X, which joins the first
+	// word of S (then the case is out of domain).
 	dLine := countNL(p)
-	if len(tf) != c.PWords+len(tx)+c.SWords {
+	for _, blk := range [][]byte{p, s} {
+		for _, tk := range ids(cl, blk) {
+			if tk.ID != unknownIndex {
+				return lib.Outcome{Skip: "premise_failed", Classes: classes}
+			}
+		}
+	}
+	if t := bytes.TrimRight(x, " \t\r\n"); len(t) > 0 {
+		if r, _ := utf8.DecodeLastRune(t); isDashRune(r) {
+			return lib.Outcome{Skip: "x-ends-in-hyphen", Classes: classes}
+		}
+	}
+	if len(ids(cl, p)) != c.PWords || len(ids(cl, s)) != c.SWords {
 		return lib.Outcome{Skip: "premise_failed", Classes: classes}
+	}
+	if len(tf) != c.PWords+len(tx)+c.SWords {
+		return lib.Outcome{Violation: fmt.Sprintf("threshold %v, X = %s: X has %d words on its own but %d words between a prefix of %d and a suffix of %d unrelated words", c.Thr, c.X.describe(), len(tx), len(tf)-c.PWords-c.SWords, c.PWords, c.SWords), Classes: classes}
 	}
 	for i, tk := range tf {
 		switch {
 		case i < c.PWords || i >= c.PWords+len(tx):
 			if tk.ID != unknownIndex {
-				return lib.Outcome{Skip: "premise_failed", Classes: classes}
+				return lib.Outcome{Violation: fmt.Sprintf("threshold %v, X = %s: word %d of the surrounding unrelated text became the known word %q", c.Thr, c.X.describe(), i, cl.dict.getWord(tk.ID)), Classes: classes}
 			}
 		default:
 			if tk.ID != tx[i-c.PWords].ID || tk.Line != tx[i-c.PWords].Line+dLine {
-				return lib.Outcome{Skip: "premise_failed", Classes: classes}
+				return lib.Outcome{Violation: fmt.Sprintf("threshold %v, X = %s: word %d of X is %q on line %d when X stands alone, but %q on line %d (expected line %d) behind a prefix of %d unrelated words on %d lines",
+					c.Thr, c.X.describe(), i-c.PWords, cl.dict.getWord(tx[i-c.PWords].ID), tx[i-c.PWords].Line, cl.dict.getWord(tk.ID), tk.Line, tx[i-c.PWords].Line+dLine, c.PWords, dLine), Classes: classes}
 			}
 		}
 	}
